@@ -438,8 +438,62 @@ func main() {
 		os.Exit(2)
 	}
 
+	// loaders: every function of the package from which Router.tree.Load is reachable through
+	// static calls (package-level functions and methods; function literals included)
+	callees := map[string]map[string]bool{}
+	direct := map[string]bool{}
+	var order []string
+	for _, f := range files {
+		for _, d := range f.Decls {
+			fd, ok := d.(*ast.FuncDecl)
+			if !ok || fd.Body == nil {
+				continue
+			}
+			q := qual(fd)
+			order = append(order, q)
+			if callees[q] == nil {
+				callees[q] = map[string]bool{}
+			}
+			ast.Inspect(fd.Body, func(n ast.Node) bool {
+				ce, ok := n.(*ast.CallExpr)
+				if !ok {
+					return true
+				}
+				if se, ok := ce.Fun.(*ast.SelectorExpr); ok && se.Sel.Name == "Load" && fieldOf(se.X, "Router", "tree") {
+					direct[q] = true
+				}
+				if name, ok := calleeName(ce); ok {
+					callees[q][name] = true
+				}
+				return true
+			})
+		}
+	}
+	loaders := map[string]bool{}
+	for q := range direct {
+		loaders[q] = true
+	}
+	for changed := true; changed; {
+		changed = false
+		for q, cs := range callees {
+			if loaders[q] {
+				continue
+			}
+			for c := range cs {
+				if loaders[c] {
+					loaders[q] = true
+					changed = true
+					break
+				}
+			}
+		}
+	}
+
 	tracked := map[string]bool{}
 	for _, n := range listed {
+		tracked[n] = true
+	}
+	for n := range loaders {
 		tracked[n] = true
 	}
 	for _, n := range alsoTracked {
@@ -531,7 +585,22 @@ func main() {
 		}
 		sb.WriteString("\n  (" + coqStr(s.fn) + ", " + ev + ")")
 	}
-	sb.WriteString("\n].\n")
+	sb.WriteString("\n].\n\n")
+	sb.WriteString("(* every function of the production package from which Router.tree.Load is reachable through\n   static calls, in file/source order: a call of any of them is a load of the published tree *)\n")
+	sb.WriteString("Definition loaders : list string := [")
+	first := true
+	seenL := map[string]bool{}
+	for _, q := range order {
+		if loaders[q] && !seenL[q] {
+			seenL[q] = true
+			if !first {
+				sb.WriteString("; ")
+			}
+			first = false
+			sb.WriteString(coqStr(q))
+		}
+	}
+	sb.WriteString("].\n")
 
 	if out == "" {
 		fmt.Print(sb.String())
